@@ -7,7 +7,7 @@ from vlib import fmt_list
 PID = 'C09'
 RULE = ('decode_error on words at every distance 0..k+1 from a codeword (errors spread over the blocks or concentrated in one), uniformly '
         'random words, for all 48 sizes with the seven odd-k sizes over-sampled; whenever the answer is Ok the returned word is '
-        're-checked with independent syndromes and by re-encoding; non-trivial = word outside the code; the regression corpus of former witnesses')
+        're-checked with independent syndromes and by re-encoding; for the odd-k sizes words whose first k-1 syndromes are those of fewer than floor(k/2) errors and only the last syndrome disagrees; the singular-jump patterns; non-trivial = word outside the code; the regression corpus of former witnesses')
 THEOREMS = 'C09_full, C09_roots, C09_syndromes'
 ASSUMPTIONS = ['Spec/GF256.v, Spec/RSCode.v transcribe the code of ISO/IEC 16022']
 ODD = None
@@ -49,6 +49,28 @@ def gen_cases(rng, tier, ctx):
             r = [rng.below(256) for _ in range(n)]
             cs.append({'line': 'rs_decode %d %s' % (i, fmt_list(r)), 'cat': 'random-word', 'sym': i, 'orig': None, 'w': None})
     cs += corpus.rs_cases()
+    cs += [dict(c, w=c['nerr']) for c in corpus.rs_singular_cases()]
+    # odd k: words whose first k - 1 syndromes are those of v < floor(k/2) errors while only the last syndrome disagrees --
+    # a codeword of the code with k - 1 check symbols (a multiple of its generator) plus v errors; the malfunction test
+    # never looks at the last syndrome, only the final re-check of all syndromes rejects these
+    for i in odd:
+        nd, k = sp[i]['data'], sp[i]['ec']
+        n = nd + k
+        g = [1]
+        for j in range(1, k):                      # product of (x - alpha^j), j = 1 .. k-1, highest degree first
+            a = gfpy.ALPHA_POW[j]
+            g = [x ^ y for x, y in zip(g + [0], [0] + [gfpy.mul(c, a) for c in g])]
+        t = k // 2
+        for v in range(0, t):
+            for _ in range(4 * reps):
+                shift = rng.below(n - len(g) + 1)
+                scale = rng.range(1, 255)
+                r = [0] * n
+                for idx, c in enumerate(g):
+                    r[shift + idx] ^= gfpy.mul(c, scale)
+                for p in rng.sample(range(n), v):
+                    r[p] ^= rng.range(1, 255)
+                cs.append({'line': 'rs_decode %d %s' % (i, fmt_list(r)), 'cat': 'last-syndrome-only', 'sym': i, 'orig': None, 'w': None})
     return cs
 
 
